@@ -74,6 +74,17 @@ def ini_duplicates(chk, P):
         chk.ob("C20.O1", "%s is rejected, not silently substituted" % what, ok, site=site,
                found=out[1] if out[0] == "raise" else "accepted: %s" % (out[1].get(add[0]),), expect="configuration error",
                key="C20.O1|%s" % what)
+    # the same new item supplied twice among the added items
+    for what, adds in (("Pair:Na-Cl added twice", [("Pair", "Na-Cl", "as.constant 1"), ("Pair", "Na-Cl", "as.constant 2")]),
+                       ("Pair:Na-Cl and Pair:'Na - Cl' added", [("Pair", "Na-Cl", "as.constant 1"), ("Pair", "Na - Cl", "as.constant 2")]),
+                       ("EAM-Density:Al->Fe and 'Al -> Fe' added", [("EAM-Density", "Al->Fe", "as.constant 1"), ("EAM-Density", "Al -> Fe", "as.constant 2")]),
+                       ("Potential-Form:g(r,A) and 'g(r, A)' added", [("Potential-Form", "g(r,A)", "r"), ("Potential-Form", "g(r, A)", "2*r")])):
+        out = parse(P, base, additional=adds)
+        ok = out[0] == "raise" and isinstance(out[1], ExcV) and isinstance(out[1].cls, ClassV) \
+            and out[1].cls.ci.is_subclass_of(P.cls("atsim.potentials.config._common", "ConfigurationException"))
+        chk.ob("C20.O1", "%s: the repeat is rejected, the later value does not silently replace the earlier" % what, ok, site=site,
+               found=out[1] if out[0] == "raise" else "accepted: %s" % (out[1].get(adds[0][0]),), expect="configuration error",
+               key="C20.O1|%s" % what)
     out = parse(P, "[Pair]\nA-B : as.zero\nA-C : as.zero\n[EAM-Density]\nA->B : as.zero\nB->A : as.zero\n[Potential-Form]\nf(r,A) = r\ng(r,A) = r\n")
     chk.ob("C20.O1", "distinct keys are accepted", out[0] == "ok", site=site, found=out[1] if out[0] != "ok" else None, expect="accepted",
            key="C20.O1|distinct-accepted")
@@ -86,6 +97,9 @@ def constructor_checks(chk, P):
             ("pair in both orders with blanks", "[Pair]\nA-B : as.zero\nB - A : as.zero\n", True),
             ("pair in both species orders, the unsorted spelling first", "[Pair]\nB-A : as.zero\nA-B : as.zero\n", True),
             ("pair in both species orders, among other pairs", "[Pair]\nC-D : as.zero\nU-O : as.zero\nA-B : as.zero\nO-U : as.zero\n", True),
+            ("pair of multi-character species in both orders", "[Pair]\nNa-Cl : as.zero\nCl-Na : as.zero\n", True),
+            ("pair of species of different lengths in both orders", "[Pair]\nO-Zr : as.zero\nAl-O : as.zero\nZr - O : as.zero\n", True),
+            ("pairs that are each other's mirror image as text only", "[Pair]\nNa-Cl : as.zero\nlC-aN : as.zero\n", False),
             ("three distinct pairs", "[Pair]\nB-A : as.zero\nC-A : as.zero\nC-B : as.zero\n", False),
             ("like-species pair once", "[Pair]\nA-A : as.zero\nA-B : as.zero\n", False),
             ("'Table-Form:t ' and 'Table-Form: t'", "[Table-Form:t ]\nx : 1 2\ny : 1 2\n[Table-Form: t]\nx : 1 2\ny : 1 2\n", True),
